@@ -17,6 +17,14 @@ TRUSTED = [
     "blocks fall into three hash buckets and bucket-level defects show as wrong verdicts",
     "report text -> (allocation number, size) entries by the harness' parser; truncation of long reports is observed, "
     "not modelled (C14)",
+    "extractor translate/extract_leakchain.py: statement order and enabled_ guards of TestPlugin::runAllPre/PostTestAction, the "
+    "place where installPlugin/addPlugin link a plugin, the plugins RunAllTests/runAllTestsMain install and the final-report "
+    "statement, and how MockSupportPluginReporter records a failure are regenerated into Gen/LeakChainCode.lean on every run and "
+    "executed by the chain interpreter Model/LeakPluginChain.lean",
+    "plugins other than the leak plugin are scripted (class ScriptPlugin in h_c07: memory operations and result.addFailure); the "
+    "real MockSupportPlugin is shape-checked, not linked",
+    "mode runner: the console text of the real RunAllTests (-v) is cut into per-test segments by the harness' parser; the leak "
+    "plugin's pre/post action are not observable there and are placed where the installation order puts them",
 ]
 ASSUMPTIONS = [
     "a block id stands for the address of a live block: scripts never allocate a live id and never free or realloc a "
@@ -28,6 +36,13 @@ ASSUMPTIONS = [
     "global mode: the only tracked allocation the runner makes inside the window (the test object) is released inside it",
     "constructor / destructor of the test object perform memory operations only (a failing check there is outside the scripts)",
     "separate process: fork/waitpid behave (C11); the child's trace is read through shared memory",
+    "several plugins: exactly one leak plugin, enabled; the other plugins' actions perform tracked memory operations and add "
+    "failures without leaving the action; a failure recorded by a plugin BEFORE the leak plugin's pre action is outside the "
+    "property's quantifier (the oracle demands nothing of that test's verdict)",
+    "the window demanded by the oracle opens at the leak plugin's pre action or, at the latest, at the constructor of the test "
+    "object, and closes at the leak plugin's post action",
+    "RunAllTests: at least one test ran (a run without tests counts as failed, C01); the final report is not part of the property "
+    "statement: it is modelled and compared, the oracle demands nothing of it",
 ]
 RULE = ("sequences of 1-30 scripted tests, each with 0-6 alloc/free/realloc per phase (setup, body, teardown, and between tests), "
         "frees of earlier tests' blocks, tracked reallocs of own and earlier blocks with the platform realloc succeeding or "
@@ -35,7 +50,11 @@ RULE = ("sequences of 1-30 scripted tests, each with 0-6 alloc/free/realloc per 
         "run in a separate process, further plugin objects constructed between/inside tests (kept or destroyed) with "
         "declarations made through the real EXPECT_N_LEAKS / IGNORE_ALL_LEAKS_IN_TEST macros, overload switches between tests, FinalReport(n), destroyGlobalDetector, expected-leak counts 0-3, ignore flag, own failures in any phase; both detector "
         "modes; non-trivial = at least two tests and at least one leak failure or one test passing with outstanding blocks; "
-        "distinct = distinct op sequences")
+        "distinct = distinct op sequences; half of the cases install 1-3 further plugins before/after the leak plugin (`plugins` "
+        "line = installation order) whose pre/post actions allocate, release (blocks of the test, of earlier tests), realloc and add "
+        "failures, plugins disabled/enabled by name between tests; a `chain` stream with plugins in every case; a `runner` stream in "
+        "which the real CommandLineTestRunner::RunAllTests makes the whole run (60 % of them steered to pass so that the final "
+        "report is printed)")
 
 PHASES = ["s", "b", "t"]
 AKINDS = ["new", "newarr", "malloc"]
@@ -49,6 +68,8 @@ class Sim:
         self.next_label = 1
         self.freed = []
         self.kind = {}          # label -> allocation family (global mode: only malloc blocks can be realloc'ed)
+        self.install = ["L"]    # installation order of the plugins
+        self.enabled = {}       # scripted plugin -> enabled
 
 
 def gen_phase_cmds(rng, sim, tno, ph, n_ops, st, is_global, malformed):
@@ -140,7 +161,7 @@ def gen_phase_cmds(rng, sim, tno, ph, n_ops, st, is_global, malformed):
                 if label in st["mine"]:
                     st["mine"].remove(label)
                 sim.freed.append(label)
-        elif x < 0.865:
+        elif x < 0.865 and not st.get("passing"):
             ops.append("cmd %d %s fail" % (tno, ph))
             if executed:
                 st["aborted"] = True
@@ -151,11 +172,34 @@ def gen_phase_cmds(rng, sim, tno, ph, n_ops, st, is_global, malformed):
     return ops
 
 
-def gen_test(rng, sim, tno, is_global, malformed, bulk=False):
+def gen_plugin_actions(rng, sim, tno, which, plugs, st, is_global, malformed, fail_p):
+    """pre (`p`) / post (`q`) actions of the scripted plugins `plugs` (in execution order)"""
+    ops = []
+    for k in plugs:
+        if not sim.enabled.get(k, True):
+            if rng.random() < 0.4:      # a disabled plugin's script must not be performed
+                ops.append("cmd %d %s%d alloc %d 5" % (tno, which, k, 1900 + k))
+            continue
+        if rng.random() < 0.45:
+            continue
+        keep = (st["aborted"], st.get("mem_only"))
+        st["aborted"], st["mem_only"] = False, True
+        ops += gen_phase_cmds(rng, sim, tno, "%s%d" % (which, k), rng.randint(1, 3), st, is_global, malformed)
+        st["aborted"], st["mem_only"] = keep
+        if rng.random() < fail_p:
+            ops.append("cmd %d %s%d fail" % (tno, which, k))
+    return ops
+
+
+def gen_test(rng, sim, tno, is_global, malformed, bulk=False, runner=False, passing=False):
     ops = ["test %d" % tno]
-    st = {"aborted": False, "mine": [], "freed_earlier": False}
+    st = {"aborted": False, "mine": [], "freed_earlier": False, "passing": passing}
+    inst = sim.install                           # installation order, "L" = the leak plugin
+    li = inst.index("L") if "L" in inst else len(inst)
+    inner = [k for k in inst[:li]]               # installed before the leak plugin: behind it in the chain
+    outer = [k for k in inst[li + 1:]]           # installed after it: in front of it
     # between tests
-    if rng.random() < 0.25:
+    if (not runner) and rng.random() < 0.25:
         st0 = {"aborted": False, "mine": [], "freed_earlier": False, "no_realloc": not malformed}
         lines = gen_phase_cmds(rng, sim, tno, "o", rng.randint(1, 3), st0, is_global, malformed)
         if not malformed:
@@ -163,10 +207,17 @@ def gen_test(rng, sim, tno, is_global, malformed, bulk=False):
             # a `fail`/`expect`/`ignore` outside a test is not executed: the simulation above did not abort either
         ops += lines
     style = rng.random()
-    separate = (not bulk) and rng.random() < 0.10
+    separate = (not bulk) and (not runner) and rng.random() < 0.10
     if separate:
         ops.append("cmd %d o separate" % tno)
         saved = (list(sim.live), list(sim.freed), dict(sim.kind))
+    if (inner or outer) and (not runner) and rng.random() < 0.10:
+        k = rng.choice(inner + outer)
+        on = rng.random() < 0.4
+        ops.append("cmd %d o %s %d" % (tno, "enable" if on else "disable", k))
+        sim.enabled[k] = on
+    elif malformed and rng.random() < 0.1:
+        ops.append("cmd %d o disable %d" % (tno, rng.randint(0, 5)))
     if (not is_global) and rng.random() < 0.08:
         ops.append("cmd %d o overloads %s" % (tno, rng.choice(["off", "off", "on"])))
     elif (not is_global) and rng.random() < 0.15:
@@ -184,10 +235,19 @@ def gen_test(rng, sim, tno, is_global, malformed, bulk=False):
 
     # a further plugin object (never installed) is constructed: between the tests or inside this one
     p2 = rng.random()
+    if runner and p2 < 0.05:
+        p2 = 0.07
     if p2 < 0.05:
         ops.append("cmd %d o plugin2 %s" % (tno, rng.choice(["keep", "destroy"])))
     elif p2 < 0.09:
         ops.append("cmd %d %s plugin2 %s" % (tno, rng.choice(["s", "b", "b", "t"]), rng.choice(["keep", "destroy"])))
+    # pre actions: the chain is walked head first (the plugin installed last acts first)
+    if outer and not bulk:
+        st0 = {"aborted": False, "mine": [], "freed_earlier": False}
+        ops += gen_plugin_actions(rng, sim, tno, "p", list(reversed(outer)), st0, is_global, malformed,
+                                  0.15 if malformed else 0.0)
+    if inner and not bulk:
+        ops += gen_plugin_actions(rng, sim, tno, "p", list(reversed(inner)), st, is_global, malformed, 0.0 if passing else 0.03)
     if (not bulk) and rng.random() < 0.25:
         ops += obj_phase("c")
     for ph in PHASES:
@@ -210,23 +270,45 @@ def gen_test(rng, sim, tno, is_global, malformed, bulk=False):
         target = n if rng.random() < 0.6 else max(0, n + rng.choice([-1, 1]))
         ops.append("cmd %d %s expect %d" % (tno, rng.choice(["b", "t"]), target))
     ops += dtor_lines
+    # post actions: the rest of the chain first (the plugin installed first acts first)
+    if inner and not bulk:
+        ops += gen_plugin_actions(rng, sim, tno, "q", inner, st, is_global, malformed, 0.0 if passing else 0.12)
+    if outer and not bulk:
+        st0 = {"aborted": False, "mine": [], "freed_earlier": False}
+        ops += gen_plugin_actions(rng, sim, tno, "q", outer, st0, is_global, malformed, 0.08)
+    if passing:
+        # the test declares exactly what is outstanding at the leak plugin's post action (or asks to ignore it)
+        ops.append("cmd %d t ignore" % tno if rng.random() < 0.25 else "cmd %d t expect %d" % (tno, len(st["mine"])))
     if separate:
         # what the child did to the memory does not exist in the parent
         sim.live, sim.freed, sim.kind = saved
     return ops
 
 
-def gen_case(rng, tier, mode, malformed=False):
-    is_global = mode == "global"
+def gen_case(rng, tier, mode, malformed=False, chain=None, passing=False):
+    runner = mode == "runner"
+    is_global = mode == "global" or runner
     ops = ["mode " + mode]
     sim = Sim()
+    if rng.random() < (0.5 if chain is None else chain):
+        ks = rng.sample([1, 2, 3, 4], rng.choice([1, 1, 2, 2, 3]))
+        if not runner:
+            ks.insert(rng.randint(0, len(ks)), "L")
+        if malformed and rng.random() < 0.3:
+            ks = [k for k in ks if k != "L"] + rng.choice([[], ["L"], [7]])       # no leak plugin named / unknown plugin
+        ops.append("plugins " + " ".join(str(k) for k in ks))
+        sim.install = [k for k in ks if k == "L" or (isinstance(k, int) and 1 <= k <= 4)]
+        if "L" not in sim.install:
+            sim.install.append("L")
     ntests = rng.choice([1, 2, 3, 4, 6, 8, 12, 20, 30]) if tier == "thorough" else rng.choice([1, 2, 3, 4, 5, 6, 8, 12, 30])
+    if runner:
+        ntests = rng.choice([1, 2, 3, 4, 5, 6, 8])
     labels = list(range(1, ntests + 1))
     if malformed:
         rng.shuffle(labels)
     for tno in labels:
         bulk = (not malformed) and rng.random() < 0.03
-        ops += gen_test(rng, sim, tno, is_global, malformed, bulk)
+        ops += gen_test(rng, sim, tno, is_global, malformed, bulk and not passing, runner, passing)
     if malformed and rng.random() < 0.5:
         # commands for tests declared long ago (appended to their phases) and for undeclared tests
         for _ in range(rng.randint(1, 6)):
@@ -238,7 +320,7 @@ def gen_case(rng, tier, mode, malformed=False):
     if not is_global and rng.random() < 0.5:
         n = len(sim.live)
         ops.append("final %d" % rng.choice([0, 0, n, n, max(0, n - 1), n + 1]))
-    if is_global and rng.random() < 0.3:
+    if is_global and not runner and rng.random() < 0.3:
         ops.append("destroy")
     return ops
 
@@ -271,12 +353,28 @@ def fixed_cases():
         ("fixed", ["mode global", "test 1", "cmd 1 b plugin2 keep", "cmd 1 b expect 1", "cmd 1 b alloc 1 8 new",
                    "test 2", "cmd 2 o plugin2 destroy", "cmd 2 b ignore", "cmd 2 b alloc 2 8 malloc"]),
         ("fixed", ["mode private nooverloads", "test 1", "cmd 1 b alloc 1 8", "test 2", "cmd 2 b expect 1"]),
+        # a mock-like plugin whose post action releases what the body allocated: installed before the leak plugin
+        # (inside the window: clean) / after it (the release comes after the verdict: reported)
+        ("fixed", ["mode private", "plugins 1 L", "test 1", "cmd 1 b alloc 1 8", "cmd 1 q1 free 1", "test 2", "cmd 2 p1 alloc 2 4",
+                   "test 3", "cmd 3 q1 free 2", "cmd 3 q1 fail", "cmd 3 b alloc 3 3"]),
+        ("fixed", ["mode private", "plugins L 1", "test 1", "cmd 1 b alloc 1 8", "cmd 1 q1 free 1", "test 2", "cmd 2 p1 alloc 2 4",
+                   "test 3", "cmd 3 q1 free 2", "cmd 3 q1 fail", "cmd 3 b alloc 3 3", "final 0"]),
+        # the whole run made by CommandLineTestRunner::RunAllTests (its own leak plugin, console output, final report)
+        ("fixed", ["mode runner", "plugins 1 2", "test 1", "cmd 1 b alloc 1 8 new", "cmd 1 q1 free 1", "cmd 1 p2 alloc 2 4 malloc",
+                   "test 2", "cmd 2 b alloc 3 8 newarr", "test 3", "cmd 3 b expect 1", "cmd 3 b alloc 4 3 malloc", "cmd 3 s alloc 5 3 new",
+                   "cmd 3 s fail"]),
+        ("fixed", ["mode runner", "test 1", "cmd 1 b expect 1", "cmd 1 b alloc 4 3 malloc", "test 2", "cmd 2 b ignore",
+                   "cmd 2 t alloc 5 6 new"]),
+        ("fixed", ["mode runner", "test 1", "cmd 1 b alloc 4 3 malloc", "cmd 1 t free 4"]),
+        ("fixed", ["mode global", "plugins 2 L 1 3", "test 1", "cmd 1 p3 alloc 1 8 new", "cmd 1 p2 alloc 2 8 malloc", "cmd 1 b alloc 3 1 newarr",
+                   "cmd 1 q2 free 3", "cmd 1 q1 free 1", "test 2", "cmd 2 o disable 2", "cmd 2 p2 alloc 9 9 new", "cmd 2 b free 2",
+                   "cmd 2 q3 alloc 4 2 new", "test 3", "cmd 3 o separate", "cmd 3 o enable 2", "cmd 3 p2 alloc 5 1 new", "cmd 3 q1 fail"]),
         ("fixed", ["mode private"] + ["test 1"] + ["cmd 1 b alloc %d 8" % i for i in range(1, 31)] + ["test 2", "cmd 2 b alloc 40 1"]),
     ]
 
 
 def generate(rng, tier):
-    n = 1200 if tier == "quick" else 6000
+    n = 1200 if tier == "quick" else 5000
     out = list(fixed_cases())
     for i in range(n):
         mode = "private" if rng.random() < 0.5 else "global"
@@ -286,12 +384,25 @@ def generate(rng, tier):
         out.append(("malformed", gen_case(rng, tier, mode, malformed=True)))
     for i in range(n // 25):
         out.append(("nooverloads", gen_case(rng, tier, "private nooverloads")))
+    for i in range(n // 8):
+        mode = "private" if rng.random() < 0.5 else "global"
+        out.append(("chain-" + mode, gen_case(rng, tier, mode, chain=1.0)))
+    for i in range(n // 10):
+        out.append(("runner", gen_case(rng, tier, "runner", malformed=(i % 10 == 9), passing=(i % 10 < 6))))
     return out
 
 
 def translate(ctx):
-    from translate import extract_leakplugin
-    return extract_leakplugin.run()
+    from translate import extract_leakplugin, extract_leakchain
+    problems, errors = [], []
+    for ex in (extract_leakplugin, extract_leakchain):      # each one regenerates its own Gen file
+        try:
+            problems += ex.run() or []
+        except Exception as e:
+            errors.append("%s: %s" % (ex.__name__.split(".")[-1], e))
+    if errors:
+        raise Exception("; ".join(errors))
+    return problems
 
 
 def _tests(r):
@@ -311,8 +422,22 @@ def _tests(r):
             elif w[1] == "pre" and cur is not None:
                 cur["window"] = True
             last_cmd = w[1:]
+        elif cur is not None and last_cmd and last_cmd[0] == "post" and w[0] == "failures":
+            cur["posted"] = True
+        elif cur is not None and last_cmd and last_cmd[0] == "done" and w[0] == "order":
+            pre = w[1:w.index("/")] if "/" in w else []
+            if len(pre) > 1:
+                cur["events"].append("chain_leak_plugin_%s" % ("outermost" if pre[0] == "L" else "innermost" if pre[-1] == "L" else "in_the_middle"))
         elif cur is not None and last_cmd and last_cmd[0] == "cmd":
             kind = last_cmd[2]
+            if len(last_cmd[1]) == 2 and last_cmd[1][0] in "pq" and w[0] in ("num", "ok"):
+                where = "inside_window" if (cur["window"] and not cur.get("posted")) else "outside_window"
+                cur["events"].append("plugin_%s_%s_%s" % ("pre" if last_cmd[1][0] == "p" else "post",
+                                                          "failure" if kind == "fail" else "memory_op", where))
+                if kind == "free" and last_cmd[3] in cur["mine"]:
+                    cur["events"].append("plugin_releases_block_of_the_test_" + where)
+            if kind in ("disable", "enable") and w[0] == "ok":
+                cur["events"].append("plugin_" + kind + "d_by_name")
             if last_cmd[1] in ("c", "d") and w[0] in ("num", "ok") and kind in ("alloc", "free", "realloc"):
                 cur["events"].append("memory_op_in_constructor" if last_cmd[1] == "c" else "memory_op_in_destructor")
             if kind == "plugin2" and w[0] == "ok":
@@ -356,6 +481,8 @@ def _tests(r):
         elif cur is not None and w[0] == "leakfail":
             cur["leakfail"] = w[1]
             cur["trunc"] = w[-1] == "1"
+        elif last_cmd and last_cmd[0] == "runnerend" and w[0] == "final" and tests:
+            tests[-1]["events"].append("runner_final_report_" + w[1])
         elif cur is not None and w[0] == "warn":
             cur["warn"] = True
         elif cur is not None and w[0] == "parentfail":
@@ -414,10 +541,19 @@ LEVEL_TEXT = ("Machine-checked Lean 4 theorems, for every sequence of scripted t
               "failed; FinalReport(n) is silent iff n enabled blocks are outstanding; overloads off: warning instead of failure; flags are reset after every test. The theorems are about an interpreter that executes statement "
               "lists regenerated from the C++ source on every run; interpreter and abstract detector are tied to the code by a "
               "differential harness (real plugin, real runner, private and global detector, ASan/UBSan) and the "
-              "implementation's own observations are judged by an independent specification oracle.")
+              "implementation's own observations are judged by an independent specification oracle. "
+              "NEW: the leak plugin inside a chain of plugins — for every chain with one enabled leak plugin, any plugins before and after "
+              "it (enabled or not) and any scripts of their pre/post actions: the verdict is the property's with the window = leak pre action "
+              "to leak post action (plugins installed before the leak plugin act inside it, the ones installed after it outside), the report "
+              "lists exactly the window's blocks and none that existed at the pre action, a failure added inside the window by another plugin "
+              "suppresses the leak failure, later post actions cannot change the verdict; whole-run theorem over sequences of tests each "
+              "under its own chain; RunAllTests' arrangement puts every other plugin inside the window and prints FinalReport(0) exactly "
+              "when the run passed. Chain walk order, guards, installation place and the runner's statements are regenerated from the source.")
 LEVEL_NOTE = ("Trusted: Lean kernel; the interpreter and the list abstraction of the detector's hash table (validated by the "
               "correspondence of this run; table exactness is C04); the statement extractor; the harness' report parser. "
               "Observed only, not proved: truncated reports (more than ~19 entries) still state the true total; the runner's "
-              "own allocation inside the window is released inside it; overloads-off mode prints a warning instead of failing.")
+              "own allocation inside the window is released inside it. Not modelled: TestTestingFixture (nested registry), the "
+              "real MockSupportPlugin's allocations (scripted instead), a second leak plugin on the same detector, disabling the leak "
+              "plugin itself, -r repetitions, crash on fail.")
 TECHNIQUE = ("Lean 4 refinement proof (model run = history-level specification) over an interpreter of regenerated statement "
              "lists + differential correspondence harness + specification oracle on the implementation's observations")
